@@ -136,4 +136,18 @@ CHECKS = {
              "shards": {"quick": 4, "thorough": 16}, "timeout": {"quick": 600, "thorough": 7200}},
         ],
     },
+    "C17": {
+        "rule": ("generated throttle configurations: per-connection and/or total rate log-uniform 1 KB/s..1 MB/s, bursts 1 B..64 KiB or the handler default, latency 0..200 ms; "
+                 "1..8 concurrent connections on one handler; reader buffers 1 B..64 KiB; streams of about burst + rate x 0.05..0.45 s; clients that have everything ready "
+                 "or trickle a few bytes every 5..60 ms. Every read on the underlying scripted connection is logged with its completion time. Oracle (one-sided): cumulative "
+                 "bytes <= burst + rate x (t - first read attempt) per connection and summed for the total limit; first read not before entry + latency - 5 ms; bytes "
+                 "delivered == stream. Non-trivial = stream > 2 x burst (>= 2 limiter waits) or >= 2 connections under a total limit; distinct = distinct case."),
+        "assumptions": ["time is read after the observed read returned and the reference instant before the first read is attempted, so scheduling delay can only loosen the bound (no false 'too fast')",
+                        "tolerance: 1 byte per connection + rate x 1 ms"],
+        "min_classes": {"quick": {"C17/per-connection-limit": 80, "C17/total-limit-shared": 30, "C17/latency": 50, "C17/trickling-client": 50}},
+        "runs": [
+            {"name": "throttle", "pkg": "./c17", "run": ".", "rapid_checks": {"quick": 40, "thorough": 1500},
+             "shards": {"quick": 8, "thorough": 16}, "timeout": {"quick": 600, "thorough": 7200}},
+        ],
+    },
 }
